@@ -68,7 +68,18 @@ func init() {
 			if err != nil {
 				return M{"ok": false}
 			}
-			return M{"ok": true, "data": hx(b)}
+			// the result is the caller's: a later Marshal (of another value, of the same or a shorter length) must leave it as it is,
+			// and so must an Unmarshal of it (whose fields alias it)
+			want := hx(b)
+			other := &webauthn.AuthenticatorData{Flags: 0x01, SignCount: 0xA5A5A5A5}
+			for i := range other.RPIDHash {
+				other.RPIDHash[i] = 0x5A
+			}
+			_, _ = other.Marshal()
+			if hx(b) != want {
+				return M{"ok": true, "data": want, "overwrittenByLaterMarshal": hx(b)}
+			}
+			return M{"ok": true, "data": want}
 		})
 		class := "ok"
 		if ok, _ := model["ok"].(bool); !ok {
